@@ -29,14 +29,22 @@ and a C04 violation as well (the stub of the same source differs between
 PYTHONHASHSEED values).  Indices 0, 1, 2 hit the kept prefix and are right;
 other constant indices are not concrete ints in pytype and fall back to T.
 
-Small safe repair (not applied), constant_folding.collect_list, last arm:
+Repair options (not applied; /tmp/val/c01_folded_prefix_repair.diff is the
+first).  (1) minimal and sound - constant_folding.collect_list, last arm:
       state, vs = expand(state, elts)
       var = ctx.convert.build_list(state.node, vs)
       for v in var.data:
         v.is_concrete = False   # a prefix + type placeholders, not the literal
       return state, var
-(List.getitem_slot / getslice_slot then answer from T; `table[0]` loses the
-prefix precision for >= 64-element literals only.)
+Tried on a private copy of the scratch build: `table[-1]` becomes
+Union[int, str] for both programs; the only upstream tests that change are
+constant_folding_test.PyvalTest.test_long_list / test_long_list_of_tuples,
+which pin `a[0]` / `a[1]` of an 84-element literal to the element's own type
+(the prefix optimisation is given up, so their expectation becomes the union).
+(2) precision-preserving, larger: let abstract.List carry the length of the
+known prefix and make getitem_slot / getslice_slot answer from pyval only for
+constant indices 0 <= i < prefix (negative indices and the placeholder
+positions fall back to T).
 
 Suggested key for known_findings.json (if activated before the repair):
   R1.25:concrete-folded-list:truncated
